@@ -50,6 +50,8 @@ type pScenario struct {
 	Name    string
 	Doc     string
 	RowType string // name of the row structure for VALUES rows ("" = single row: columns become scalars)
+	// ConstCols: VALUES columns whose literal is a constant of the code, not an argument
+	ConstCols []string
 	Scalars []pScalar
 	Run     func(ctx context.Context, store *ledgerstore.Store) error
 }
@@ -68,7 +70,20 @@ var intRe = regexp.MustCompile(`^-?[0-9]+$`)
 
 // rowTemplate turns the rows of a VALUES list into one template over `r`.
 // cols are the target column names (field names of the row structure).
-func rowTemplate(cols []string, rows [][]*minisql.Node) (template string, fields [][2]string, err error) {
+func rowTemplate(cols []string, rows [][]*minisql.Node, constCols []string) (template string, fields [][2]string, err error) {
+	isConst := func(c int, n *minisql.Node) bool {
+		if n.Is("Expr.str") && strings.Contains(n.Args[0].(string), "MARK") {
+			return true // ledger / bucket markers are parameters of the whole statement
+		}
+		if c < len(cols) {
+			for _, k := range constCols {
+				if k == cols[c] {
+					return true
+				}
+			}
+		}
+		return false
+	}
 	if len(rows) == 0 {
 		return "", nil, fmt.Errorf("empty VALUES")
 	}
@@ -83,6 +98,7 @@ func rowTemplate(cols []string, rows [][]*minisql.Node) (template string, fields
 			}
 			n := r[c]
 			switch {
+			case isConst(c, n):
 			case n.Is("Expr.str"):
 				anyLit = true
 				if !intRe.MatchString(n.Args[0].(string)) {
@@ -113,7 +129,7 @@ func rowTemplate(cols []string, rows [][]*minisql.Node) (template string, fields
 				name = leanIdent(cols[c])
 			}
 			switch {
-			case types[c] == "" || n.Is("Expr.null") || n.Is("Expr.dflt"):
+			case types[c] == "" || n.Is("Expr.null") || n.Is("Expr.dflt") || isConst(c, n):
 				parts = append(parts, n.Lean())
 			case n.Is("Expr.str") && types[c] == "Int":
 				parts = append(parts, "(Expr.str (toString r."+name+"))")
@@ -236,7 +252,7 @@ func parametrise1(sc pScenario, stmts []pgfake.Stmt) (*pResult, error) {
 					if r, ok := src.Args[0].([][]*minisql.Node); ok {
 						rows, cols = r, n.Args[4].([]string)
 						if sc.RowType != "" {
-							tpl, fields, err := rowTemplate(cols, rows)
+							tpl, fields, err := rowTemplate(cols, rows, sc.ConstCols)
 							if err != nil {
 								werr = err
 								return
@@ -255,6 +271,7 @@ func parametrise1(sc pScenario, stmts []pgfake.Stmt) (*pResult, error) {
 								}
 								name := leanIdent(cols[c])
 								switch {
+								case v.Is("Expr.str") && strings.Contains(v.Args[0].(string), "MARK"):
 								case v.Is("Expr.str"):
 									rows[0][c] = minisql.N("RawLean", "(Expr.str "+name+")")
 									scalars = append(scalars, pScalar{Name: name, Type: "String"})
@@ -276,7 +293,7 @@ func parametrise1(sc pScenario, stmts []pgfake.Stmt) (*pResult, error) {
 						rows = se.Args[0].([][]*minisql.Node)
 						cols = n.Args[1].([]string)
 						argIdx = 0
-						tpl, fields, err := rowTemplate(cols, rows)
+						tpl, fields, err := rowTemplate(cols, rows, sc.ConstCols)
 						if err != nil {
 							werr = err
 							return
@@ -387,7 +404,7 @@ func CaptureParametric() ([]*pResult, error) {
 					ledger.AccountsVolumes{Account: "acc:b", Asset: "EUR", Input: big.NewInt(3), Output: big.NewInt(100)})
 				return err
 			}},
-		{Name: "GetBalances", RowType: "BalanceRow", Doc: "GetBalances(pairs): insert zero rows (ON CONFLICT DO NOTHING) and SELECT … FOR UPDATE; `rows` sorted by (account, asset)",
+		{Name: "GetBalances", RowType: "BalanceRow", ConstCols: []string{"input", "output"}, Doc: "GetBalances(pairs): insert zero rows (ON CONFLICT DO NOTHING) and SELECT … FOR UPDATE; `rows` sorted by (account, asset)",
 			Run: func(ctx context.Context, s *ledgerstore.Store) error {
 				_, err := s.GetBalances(ctx, ledgerstore.BalanceQuery{"acc:a": {"EUR", "USD"}})
 				return err
@@ -428,7 +445,7 @@ func CaptureParametric() ([]*pResult, error) {
 				return err
 			}},
 		{Name: "RevertTransactionAt", Doc: "RevertTransaction(id, at)",
-			Scalars: []pScalar{{Name: "txid", Type: "Int", Lit: "77", Kind: "int"}, {Name: "at", Type: "String", Lit: tsLit(t3), Kind: "str"}},
+			Scalars: []pScalar{{Name: "txid", Type: "Int", Lit: "77", Kind: "int"}, {Name: "atTs", Type: "String", Lit: tsLit(t3), Kind: "str"}},
 			Run: func(ctx context.Context, s *ledgerstore.Store) error {
 				_, _, err := s.RevertTransaction(ctx, 77, t3)
 				return err
@@ -440,7 +457,7 @@ func CaptureParametric() ([]*pResult, error) {
 				return err
 			}},
 		{Name: "UpdateTransactionMetadataAt", Doc: "UpdateTransactionMetadata(id, m, at)",
-			Scalars: []pScalar{{Name: "txid", Type: "Int", Lit: "77", Kind: "int"}, {Name: "metadataJson", Type: "String", Lit: jsonLit(md), Kind: "str"}, {Name: "at", Type: "String", Lit: tsLit(t3), Kind: "str"}},
+			Scalars: []pScalar{{Name: "txid", Type: "Int", Lit: "77", Kind: "int"}, {Name: "metadataJson", Type: "String", Lit: jsonLit(md), Kind: "str"}, {Name: "atTs", Type: "String", Lit: tsLit(t3), Kind: "str"}},
 			Run: func(ctx context.Context, s *ledgerstore.Store) error {
 				_, _, err := s.UpdateTransactionMetadata(ctx, 77, md, t3)
 				return err
@@ -452,7 +469,7 @@ func CaptureParametric() ([]*pResult, error) {
 				return err
 			}},
 		{Name: "DeleteTransactionMetadataAt", Doc: "DeleteTransactionMetadata(id, key, at)",
-			Scalars: []pScalar{{Name: "txid", Type: "Int", Lit: "77", Kind: "int"}, {Name: "key", Type: "String", Lit: "thekey", Kind: "str"}, {Name: "at", Type: "String", Lit: tsLit(t3), Kind: "str"}},
+			Scalars: []pScalar{{Name: "txid", Type: "Int", Lit: "77", Kind: "int"}, {Name: "key", Type: "String", Lit: "thekey", Kind: "str"}, {Name: "atTs", Type: "String", Lit: tsLit(t3), Kind: "str"}},
 			Run: func(ctx context.Context, s *ledgerstore.Store) error {
 				_, _, err := s.DeleteTransactionMetadata(ctx, 77, "thekey", t3)
 				return err
@@ -523,7 +540,7 @@ func leanParametric(rs []*pResult) string {
 	w("(`bucket`, `ledger` = name, `id` = ledger id, then the method's own arguments). Obtained by\n")
 	w("calling the real method with marker arguments and replacing the markers in the parsed\n")
 	w("statement; VALUES lists whose rows are instances of one template become `rows.map`.\n-/\n")
-	w("namespace P\n\n")
+	w("namespace P\n\nset_option linter.unusedVariables false\n\n")
 	w("/-- `(d₁) OR (d₂) OR …` as bun joins the conditions (left-associated) -/\n")
 	w("def orChain : List Expr → Expr\n  | [] => Expr.bool false\n  | e :: es => es.foldl (fun acc d => Expr.binop BinOp.or acc d) e\n\n")
 	declared := map[string]string{}
